@@ -337,12 +337,7 @@ impl Function {
             | Function::Sqrt
             | Function::Md5
             | Function::CastAsText
-            | Function::CastAsFloat
-            | Function::CastAsInteger
-            | Function::CastAsBoolean
-            | Function::CastAsDateTime
-            | Function::CastAsDate
-            | Function::CastAsTime
+            // The other casts lose information (CAST(1.2 AS INTEGER) = CAST(1.7 AS INTEGER))
             | Function::Unhex => true,
             _ => false,
         }
